@@ -97,11 +97,22 @@ func init() {
 	})
 }
 
+// reference-focused space: the same LicenseRef under different DocumentRefs, case variants of one name
+var c07RefTerms = []string{"LicenseRef-a", "LicenseRef-A", "DocumentRef-d:LicenseRef-a", "DocumentRef-e:LicenseRef-a", "MIT"}
+var c07RefEntries = []string{"LicenseRef-a", "LicenseRef-A", "DocumentRef-d:LicenseRef-a", "DocumentRef-e:LicenseRef-a", "MIT", "DocumentRef-D:LicenseRef-a"}
+
 func c07Run(c *Ctx) {
 	K := 3
 	if c.Thorough() {
 		K = 4
 	}
+	if !c07Space(c, "main", c07Terms, c07Entries, 3, K, c.Thorough()) {
+		return
+	}
+	c07Space(c, "references", c07RefTerms, c07RefEntries, 2, K+1, false)
+}
+
+func c07Space(c *Ctx, spaceName string, c07Terms, c07Entries []string, maxLeaves, K int, extra5 bool) bool {
 	ne := len(c07Entries)
 	type lst struct {
 		idx  []int
@@ -119,7 +130,7 @@ func c07Run(c *Ctx) {
 			return true
 		})
 	}
-	if c.Thorough() {
+	if extra5 {
 		// length 5 over the first 5 entries
 		var li int64
 		forSeqs(5, 5, &li, func(_ int64, s []int) bool {
@@ -135,7 +146,7 @@ func c07Run(c *Ctx) {
 	for i, e := range c07Entries {
 		respell[i] = c07Respell(e)
 	}
-	c.Bound("space", map[string]any{"terms": c07Terms, "entries": c07Entries, "max_list_len": K, "lists": len(lists), "respellings_per_entry": len(respell[0])})
+	c.Bound("space_"+spaceName, map[string]any{"terms": c07Terms, "entries": c07Entries, "max_list_len": K, "lists": len(lists), "respellings_per_entry": len(respell[0])})
 	mk := func(idx []int) []string {
 		out := make([]string, len(idx))
 		for i, a := range idx {
@@ -143,16 +154,16 @@ func c07Run(c *Ctx) {
 		}
 		return out
 	}
-	trees := TreesUpTo(3, len(c07Terms))
+	trees := TreesUpTo(maxLeaves, len(c07Terms))
 	var ti int64
-	for n := 1; n <= 3; n++ {
+	for n := 1; n <= maxLeaves; n++ {
 		for _, t := range trees[n] {
 			ti++
 			if !c.Mine(ti) {
 				continue
 			}
 			if c.Expired() {
-				return
+				return false
 			}
 			expr := t.RenderFull(c07Terms, true)
 			if !c.Begin(expr) {
@@ -262,4 +273,5 @@ func c07Run(c *Ctx) {
 			})
 		}
 	}
+	return true
 }
